@@ -1,5 +1,6 @@
 """Contracts for acnportal/acnsim/simulator.py  (C01 lifecycle, C04 schedules, C05 invocation, C09 resume)."""
 import z3
+from pyvc.vtypes import FA
 from pyvc.contracts_api import REG, C, RaiseSpec, LoopSpec
 from pyvc.dsl import And, Or, Not, Implies, If, Eq, IsNone, AllIdx, AnyIdx
 from pyvc.vtypes import Real, Int, Bool, Id, Ref, Opt, Seq, Tup, Mat, Map, IdSort, RefSort
@@ -66,6 +67,7 @@ def _process_post(old, new, ret):
                                                                     Eq(new.self._last_schedule_update.isnone, old.self._last_schedule_update.isnone)))),
         ("qinv", qinv(new, new.self.event_queue)),
         ("net_wf", net_wf(new, new.self.network)),
+        ("occupants_wf", occupants_wf(new, old.self.network)),
     ]
     return plug + unplug + other
 
@@ -75,7 +77,9 @@ REG.contract(
     requires=[C("wf", lambda s: sim_wf(s, s.self)),
               C("event_carries_ev", lambda s: Implies(Or(_is(s.event, "Plugin"), _is(s.event, "Unplug")),
                                                       And(s.event.as_("EVEvent").ev.ref != 0, s.alloc_ref(s.event.as_("EVEvent").ev.ref)))),
-              C("verbose_off", lambda s: Not(s.self.verbose))],
+              C("verbose_off", lambda s: Not(s.self.verbose)),
+              C("occupants_wf", lambda s: And(occupants_wf(s, s.self.network),
+                                              Implies(_is(s.event, "Plugin"), __import__("contracts.ev", fromlist=["ev_wf"]).ev_wf(s.event.as_("EVEvent").ev))))],
     raises=[RaiseSpec("KeyError", lambda s: Or(
                 And(_is(s.event, "Plugin"), Not(station_known(s.self.network, s.event.as_("EVEvent").ev._station_id))),
                 And(_is(s.event, "Unplug"), Not(station_known(s.self.network, s.event.as_("EVEvent").ev._station_id)))),
@@ -105,20 +109,22 @@ def I1(s, sim, strict=False):
     """every pending event is in the future of (or at) the current period"""
     x = z3.Const("px!i1", RefSort)
     ts = z3.Select(TSA(s), x)
-    return z3.ForAll([x], z3.Implies(pend(sim.event_queue, x), (ts > sim._iteration) if strict else (ts >= sim._iteration)),
+    return FA([x], z3.Implies(pend(sim.event_queue, x), (ts > sim._iteration) if strict else (ts >= sim._iteration)),
                      patterns=[bag(sim.event_queue, x)])
 
 
 def valid_plugin(s, x):
     ev = z3.Select(s.heap_array(*EVOF), x)
+    from .ev import ev_wf
     return z3.Implies(z3.Select(s.heap_array(*TYPE), x) == __import__("pyvc.vtypes", fromlist=["id_const"]).id_const("Plugin"),
-                      z3.And(ev != 0, s.alloc_ref(ev), z3.Select(s.heap_array(*DEP), ev) > z3.Select(TSA(s), x)))
+                      z3.And(ev != 0, s.alloc_ref(ev), z3.Select(s.heap_array(*DEP), ev) > z3.Select(TSA(s), x),
+                             ev_wf(s.obj(ev, "EV"))))
 
 
 def V(s, sim):
     """pending plug-ins describe valid sessions (departure after the plug-in period)"""
     x = z3.Const("px!v", RefSort)
-    return z3.ForAll([x], z3.Implies(pend(sim.event_queue, x), z3.And(valid_plugin(s, x), carries_ev(s, x))),
+    return FA([x], z3.Implies(pend(sim.event_queue, x), z3.And(valid_plugin(s, x), carries_ev(s, x))),
                      patterns=[bag(sim.event_queue, x)])
 
 
@@ -163,6 +169,10 @@ def run_pre(s):
         ("owed_period_recorded", Implies(sim._resolve, And(h.len > 0, h[h.len - 1].timestamp == sim._iteration, I1(s, sim, strict=True)))),
         ("history_len", h.len >= 0),
         ("history_entries_live", AllIdx(0, h.len, lambda j: And(h[j].ref != 0, s.alloc_ref(h[j].ref)))),
+        ("shapes", And(sim.pilot_signals.rows == sim.network._EVSEs.keys.len, sim.charging_rates.rows == sim.network._EVSEs.keys.len,
+                       sim.network._voltages.len == sim.network._EVSEs.keys.len, sim.network.magnitudes.len == sim.network.constraint_index.len,
+                       sim._iteration >= 0)),
+        ("occupants_own_valid_batteries", occupants_wf(s, sim.network)),
     ]
 
 
@@ -216,7 +226,7 @@ def inner_inv(s):
         ("history_entries_live", AllIdx(0, h.len, lambda j: And(h[j].ref != 0, s.alloc_ref(h[j].ref)))),
         ("history_prefix_untouched", Implies(s.h_in > 0, h[s.h_in - 1] == s.h_last_in)),
         ("queue_untouched_while_nothing_processed", Implies(s._k == 0, same_seq(sim.event_queue._queue, s.q_in))),
-        ("current_events_at_this_period", z3.ForAll([j], z3.Implies(z3.And(j >= 0, j < cur.len), z3.And(
+        ("current_events_at_this_period", FA([j], z3.Implies(z3.And(j >= 0, j < cur.len), z3.And(
             z3.Select(TSA(s), z3.Select(cur.v.arrs[0], j)) == t, valid_plugin(s, z3.Select(cur.v.arrs[0], j)),
             carries_ev(s, z3.Select(cur.v.arrs[0], j)), z3.Select(cur.v.arrs[0], j) != 0, s.alloc_ref(z3.Select(cur.v.arrs[0], j)))),
             patterns=[z3.Select(cur.v.arrs[0], j)])),
@@ -225,6 +235,7 @@ def inner_inv(s):
                                              Implies(Not(s.lu_in.isnone), sim._last_schedule_update.val == s.lu_in.val))))),
         ("calls_untouched", And(calls_of(sim).len == s.calls_in.len, AllIdx(0, s.calls_in.len, lambda i: calls_of(sim)[i] == s.calls_in[i]))),
         ("scheduler_attached", And(Not(IsNone(sim.scheduler._interface)), sim.scheduler._interface._simulator == sim)),
+        ("occupants_own_valid_batteries", occupants_wf(s, sim.network)),
     ]
 
 
@@ -292,7 +303,7 @@ REG.contract(
 
 # ---------------------------------------------------------------------------- callees of the loop (contracts)
 REG.contract(
-    A + "run", params=dict(self=Ref("BaseAlgorithm")), ret=Map(Id, Seq(Real)),
+    A + "run", params=dict(self=Ref("BaseAlgorithm")), ret=Map(Id, Seq(Real), ordered=True),
     assumed="the scheduling algorithm is user code: it returns some mapping station id -> list of pilots, may raise, and does not write "
             "simulator state (it only sees the copies handed out by Interface - that isolation is what C05 checks); "
             "ghost_calls records the period of the invocation",
@@ -301,34 +312,196 @@ REG.contract(
     raises=[RaiseSpec("SchedulerException", lambda s: True, iff=False, unchanged=True)],
     modifies=[("BaseAlgorithm.ghost_calls", lambda s: [s.self])],
     ensures=[C("ghost", lambda old, new, ret: [
+        sched_wf(new, ret), FA([z3.Const("uk!r", IdSort)], sched_len_at(ret, z3.Const("uk!r", IdSort)) >= 0),
         new.self.ghost_calls.len == old.self.ghost_calls.len + 1,
         new.self.ghost_calls[old.self.ghost_calls.len] == old.self._interface._simulator._iteration,
         AllIdx(0, old.self.ghost_calls.len, lambda j: new.self.ghost_calls[j] == old.self.ghost_calls[j])])],
 )
+def sched_wf(s, m):
+    """a submitted schedule: ordered mapping station id -> list of pilots"""
+    from pyvc import maplib
+    return maplib.keys_wf(m._v)
+
+
+def sched_len_at(m, key):
+    """length of the list stored under `key` (component 1 of the Seq(Real) value arrays)"""
+    return z3.Select(m._v.arrs[1], key)
+
+
+def sched_val_at(m, key, j):
+    return z3.Select(z3.Select(m._v.arrs[0], key), j)
+
+
+def all_known(s, sim, m):
+    k = z3.Const("uk!all", IdSort)
+    return FA([k], z3.Implies(z3.Select(m._v.dom, k), sim.network._EVSEs.has(k)), patterns=[z3.Select(m._v.dom, k)])
+
+
+def equal_lengths(m):
+    k1, k2 = z3.Const("uk!1", IdSort), z3.Const("uk!2", IdSort)
+    return FA([k1, k2], z3.Implies(z3.And(z3.Select(m._v.dom, k1), z3.Select(m._v.dom, k2)), sched_len_at(m, k1) == sched_len_at(m, k2)),
+                     patterns=[z3.MultiPattern(sched_len_at(m, k1), sched_len_at(m, k2))])
+
+
+def _us_post(old, new, ret):
+    sim, m = old.self, old.new_schedule
+    P, Pn = old.self.pilot_signals, new.self.pilot_signals
+    t = sim._iteration
+    ids = sim.network._EVSEs.keys              # station order = registration order
+    nonempty = m.keys.len > 0
+    L = sched_len_at(m, m.keys[0])
+    W = P.cols
+    q = sim.event_queue
+    last_plus_1 = z3.Int("us!lastp1")          # existentially: the queue's last timestamp + 1 (0 if empty), only its lower-bound role matters
+    i, j = z3.Int("us!i"), z3.Int("us!j")
+    sid = z3.Select(ids.v.arrs[0], i)
+    in_block = z3.And(j >= t, j < t + L)
+    cell = z3.If(in_block, z3.If(z3.Select(m._v.dom, sid), sched_val_at(m, sid, j - t), z3.RealVal(0)),
+                 z3.If(j < W, P[i, j], z3.RealVal(0)))
+    return [
+        ("empty_schedule_changes_nothing", Implies(Not(nonempty), And(Pn.rows == P.rows, Pn.cols == P.cols, Pn.arr == P.arr))),
+        ("rows_kept", Pn.rows == P.rows),
+        ("width_covers_the_schedule_and_never_shrinks", Implies(nonempty, And(Pn.cols >= W, Pn.cols >= t + L,
+                                                                               Implies(t + L <= W, Pn.cols == W)))),
+        ("every_cell", Implies(nonempty, FA([i, j], z3.Implies(z3.And(i >= 0, i < P.rows, j >= 0, j < Pn.cols), Pn[i, j] == cell)))),
+    ]
+
+
 REG.contract(
-    S + "_update_schedules", params=dict(self=Ref("Simulator"), new_schedule=Map(Id, Seq(Real))),
-    raises=[RaiseSpec("KeyError", lambda s: True, iff=False, unchanged=True),
-            RaiseSpec("InvalidScheduleError", lambda s: True, iff=False, unchanged=True)],
+    S + "_update_schedules", params=dict(self=Ref("Simulator"), new_schedule=Map(Id, Seq(Real), ordered=True)),
+    requires=[C("wf", lambda s: And(sim_wf(s, s.self), sched_wf(s, s.new_schedule))),
+              C("shapes", lambda s: And(s.self.pilot_signals.rows == s.self.network._EVSEs.keys.len, s.self.pilot_signals.cols >= 0,
+                                        s.self._iteration >= 0)),
+              C("lists", lambda s: FA([z3.Const("uk!l", IdSort)], sched_len_at(s.new_schedule, z3.Const("uk!l", IdSort)) >= 0)),
+              C("aligned_shapes", lambda s: And(s.self.network.magnitudes.len == s.self.network.constraint_index.len))],
+    raises=[RaiseSpec("KeyError", lambda s: And(s.new_schedule.keys.len > 0, Not(all_known(s, s.self, s.new_schedule))), iff=True, unchanged=True),
+            RaiseSpec("InvalidScheduleError", lambda s: And(s.new_schedule.keys.len > 0, all_known(s, s.self, s.new_schedule),
+                                                             Not(equal_lengths(s.new_schedule))), iff=True, unchanged=True)],
     modifies=[("Simulator.pilot_signals", lambda s: [s.self]), "warnings"],
-    ensures=[],
+    ensures=[C("C04.overlay", _us_post, props=("C04",))],
+    loops={0: LoopSpec(invariant=lambda s: [("prefix_known", AllIdx(0, s._k, lambda i: s.self.network._EVSEs.has(s.new_schedule.keys[i])))])},
 )
+def mat_cells(f, rows, cols, name="m"):
+    """forall 0 <= i < rows, 0 <= j < cols. f(i, j)"""
+    i, j = z3.Int(f"{name}!i"), z3.Int(f"{name}!j")
+    return FA([i, j], z3.Implies(z3.And(i >= 0, i < rows, j >= 0, j < cols), f(i, j)))
+
+
 REG.contract(
     "acnportal.acnsim.simulator._increase_width", params=dict(a=Mat, target_width=Int), ret=Mat, modifies=[],
+    requires=[C("shape", lambda s: And(s.a.rows >= 0, s.a.cols >= 0))],
     ensures=[C("C04.width", lambda old, new, ret: [
-        ret.rows == old.a.rows, ret.cols == If(old.target_width <= old.a.cols, old.a.cols, old.target_width)])],
+        ("rows", ret.rows == old.a.rows),
+        ("cols", ret.cols == If(old.target_width <= old.a.cols, old.a.cols, old.target_width)),
+        ("old_content_kept", mat_cells(lambda i, j: ret[i, j] == old.a[i, j], old.a.rows, old.a.cols, "iw1")),
+        ("new_columns_zero", mat_cells(lambda i, j: z3.Implies(j >= old.a.cols, ret[i, j] == 0), ret.rows, ret.cols, "iw2")),
+    ], props=("C04",))],
 )
 N_ = "acnportal.acnsim.network.charging_network.ChargingNetwork."
+def evse_at(s, net, k):
+    """reference of the k-th registered EVSE"""
+    m = net._EVSEs._v
+    return z3.Select(m.arrs[0], z3.Select(m.keys.arrs[0], k))
+
+
+def _up_inv(s):
+    net = s.self
+    j = z3.Int("up!j")
+    pil = lambda r: s.field_of(r, "BaseEVSE", "_current_pilot")
+    return [
+        ("wf", net_wf(s, net)),
+        ("ids_are_the_registered_stations", And(s.ids.len == net._EVSEs.keys.len,
+                                                AllIdx(0, s.ids.len, lambda i: s.ids[i] == net._EVSEs.keys[i]))),
+        ("stations_before_k_got_their_pilot", FA([j], z3.Implies(z3.And(j >= 0, j < s._k), pil(evse_at(s, net, j)) == s.pilots[j, s.i]))),
+        ("occupants_wf", occupants_wf(s, net)),
+        ("valid_batteries_stay_valid", batteries_keep_inv(s.entry_state, s)),
+    ]
+
+
+def _binv_at(s, b):
+    cap = z3.Select(s.heap_array("Battery._capacity#0", z3.RealSort()), b)
+    ch = z3.Select(s.heap_array("Battery._current_charge#0", z3.RealSort()), b)
+    mp = z3.Select(s.heap_array("Battery._max_power#0", z3.RealSort()), b)
+    return z3.And(cap > 0, ch >= 0, ch <= cap, mp > 0)
+
+
+def batteries_keep_inv(a, b_):
+    """every battery object that satisfied the Battery invariant in state a satisfies it in state b_ (connected or not)"""
+    b = z3.Const("bk!b", RefSort)
+    from pyvc.vtypes import FA
+    return FA([b], z3.Implies(_binv_at(a, b), _binv_at(b_, b)),
+              patterns=[z3.Select(b_.heap_array("Battery._current_charge#0", z3.RealSort()), b)])
+
+
+def occupants_wf(s, net):
+    """every connected EV owns a valid battery (class invariant of Battery) - needed by set_pilot"""
+    from .ev import ev_wf
+    k = z3.Const("ow!k", IdSort)
+    m = net._EVSEs._v
+    evr = lambda kk: s.field_of(z3.Select(m.arrs[0], kk), "BaseEVSE", "_ev")
+    return FA([k], z3.Implies(z3.And(z3.Select(m.dom, k), evr(k).ref != 0), ev_wf(evr(k))), patterns=[z3.Select(m.arrs[0], k)])
+
+
 REG.contract(
     N_ + "update_pilots", params=dict(self=Ref("ChargingNetwork", exact=True), pilots=Mat, i=Int, period=Real),
+    requires=[C("wf", lambda s: And(net_wf(s, s.self), occupants_wf(s, s.self))),
+              C("shapes", lambda s: And(s.pilots.rows == s.self._EVSEs.keys.len, s.self._voltages.len == s.self._EVSEs.keys.len,
+                                        s.i >= 0, s.i < s.pilots.cols))],
     raises=[RaiseSpec("InvalidRateError", lambda s: True, iff=False, unchanged=False),
             RaiseSpec("ValueError", lambda s: True, iff=False, unchanged=False)],
     modifies=[ALLF("BaseEVSE._current_pilot"), ALLF("EV._energy_delivered"), ALLF("EV._current_charging_rate"),
               ALLF("Battery._current_charge"), ALLF("Battery._current_charging_power")],
-    ensures=[],
+    ensures=[C("C04.column_i_is_sent_to_every_station", lambda old, new, ret: [
+        ("every_station_has_its_pilot", FA([z3.Int("up!p")], z3.Implies(z3.And(z3.Int("up!p") >= 0, z3.Int("up!p") < old.self._EVSEs.keys.len),
+                                                  new.field_of(evse_at(old, old.self, z3.Int("up!p")), "BaseEVSE", "_current_pilot") == old.pilots[z3.Int("up!p"), old.i]))),
+        ("occupants_still_own_valid_batteries", occupants_wf(new, old.self)),
+        ("valid_batteries_stay_valid", batteries_keep_inv(old, new)),
+        ("registry_untouched", net_wf(new, old.self)),
+    ], props=("C04", "C02"))],
+    loops={0: LoopSpec(invariant=_up_inv, ghost=lambda v: dict(entry_state=v), modifies=[ALLF("BaseEVSE._current_pilot"), ALLF("EV._energy_delivered"), ALLF("EV._current_charging_rate"),
+                                                     ALLF("Battery._current_charge"), ALLF("Battery._current_charging_power")])},
 )
+
+
+def rate_of_station(s, net, k):
+    """recorded-rate source: the occupant's current charging rate, 0 if vacant"""
+    ev = s.field_of(evse_at(s, net, k), "BaseEVSE", "_ev")
+    return z3.If(ev.ref != 0, s.field_of(ev.ref, "EV", "_current_charging_rate"), z3.RealVal(0))
+
+
+REG.contract(
+    N_ + "current_charging_rates", params=dict(self=Ref("ChargingNetwork", exact=True)), ret=Seq(Real), modifies=[],
+    requires=[C("wf", lambda s: net_wf(s, s.self))],
+    ensures=[C("C02.rates_read_back_from_connected_evs", lambda old, new, ret: [
+        ("one_per_station", ret.len == old.self._EVSEs.keys.len),
+        ("value", FA([z3.Int("cr!k")], z3.Implies(z3.And(z3.Int("cr!k") >= 0, z3.Int("cr!k") < ret.len),
+                                                       ret[z3.Int("cr!k")] == rate_of_station(old, old.self, z3.Int("cr!k"))))),
+    ], props=("C02",))],
+)
+
+
+def _store_post(old, new, ret):
+    from pyvc.nplib import SUM
+    sim = old.self
+    R, Rn = sim.charging_rates, new.self.charging_rates
+    t = sim._iteration
+    i, j = z3.Int("st!i"), z3.Int("st!j")
+    rates = z3.Lambda([i], rate_of_station(old, sim.network, i))
+    cell = z3.If(j == t, rate_of_station(old, sim.network, i), z3.If(j < R.cols, R[i, j], z3.RealVal(0)))
+    return [
+        ("rows_kept", Rn.rows == R.rows),
+        ("width", And(Rn.cols >= R.cols, Rn.cols > t)),
+        ("column_t_is_the_current_rates_everything_else_kept", FA([i, j], z3.Implies(z3.And(i >= 0, i < R.rows, j >= 0, j < Rn.cols), Rn[i, j] == cell))),
+        ("peak_is_running_max_of_aggregate_current", Eq(new.self.peak, If(sim.peak >= SUM(rates, R.rows), sim.peak, SUM(rates, R.rows)))),
+    ]
+
+
 REG.contract(
     S + "_store_actual_charging_rates", params=dict(self=Ref("Simulator")),
+    requires=[C("wf", lambda s: sim_wf(s, s.self)),
+              C("shapes", lambda s: And(s.self.charging_rates.rows == s.self.network._EVSEs.keys.len, s.self._iteration >= 0)),
+              C("pending_not_in_the_past", lambda s: I1(s, s.self))],
     modifies=[("Simulator.charging_rates", lambda s: [s.self]), ("Simulator.peak", lambda s: [s.self])],
-    ensures=[],
+    ensures=[C("C02.store", _store_post, props=("C02",))],
 )
 REG.contract(N_ + "post_charging_update", params=dict(self=Ref("ChargingNetwork", exact=True)), modifies=[], ensures=[])
